@@ -486,12 +486,12 @@ type fieldRef struct {
 func fieldOf(v ssa.Value) (fieldRef, bool) {
 	switch x := v.(type) {
 	case *ssa.FieldAddr:
-		t := x.X.Type().Underlying().(*types.Pointer).Elem()
+		t := types.Unalias(x.X.Type().Underlying().(*types.Pointer).Elem())
 		st := t.Underlying().(*types.Struct)
 		n, _ := t.(*types.Named)
 		return fieldRef{n, st.Field(x.Field), x.X}, true
 	case *ssa.Field:
-		t := x.X.Type()
+		t := types.Unalias(x.X.Type())
 		st := t.Underlying().(*types.Struct)
 		n, _ := t.(*types.Named)
 		return fieldRef{n, st.Field(x.Field), x.X}, true
